@@ -63,6 +63,15 @@ func TestC09NoUpstream(t *testing.T) {
 		Gen: func(t *rapid.T) vh.ShimCase { return vh.GenShimCase(t, profile) }, Exec: exec})
 }
 
+// TestC09Faults: the same differential pairs while the underlying agent refuses individual requests.
+func TestC09Faults(t *testing.T) {
+	pr := profile
+	pr.Faults = true
+	vh.Run(t, vh.Spec[vh.ShimCase]{Property: "C09", Name: "TestC09Faults",
+		Rule: "TestC09NoUpstream's differential pairs with fault plans among the operations: the underlying agent answers individual requests (by position or by request kind: list, sign, add, remove, remove-all) with a failure, a reply the client cannot decode, or drops the connection. Same model and oracle on both shims; an operation disturbed by a fault may fail, but an answer that does come back hides every YSSHCA certificate in no-upstream mode, a remove-all that reports success leaves nothing in the underlying agent in either mode (hidden certificates included), and the operations after the fault are judged as usual. Non-trivial: as TestC09NoUpstream." + vh.ShimGenNote,
+		Gen: func(t *rapid.T) vh.ShimCase { return vh.GenShimCase(t, pr) }, Exec: exec})
+}
+
 // TestC09Many: many YSSHCA certificates in one underlying agent - all at once and renewed over time.
 func TestC09Many(t *testing.T) {
 	vh.Run(t, vh.Spec[vh.ShimCase]{Property: "C09", Name: "TestC09Many",
